@@ -120,6 +120,10 @@ class Calendar:
         self.ROUGH_DAYS_IN_YEAR = self.DAYS_IN_YEAR
         self.DAYS_IN_YEAR_LEAP = sum(self.DAYS_IN_MONTHS_LEAP)
         self.MAX_DAYS_IN_MONTH = max(self.DAYS_IN_MONTHS)
+        # Most weeks an ISO week year can have in this calendar (a 360 day
+        # year never has a week 53).
+        self.MAX_WEEKS_IN_YEAR = -(
+            -self.DAYS_IN_YEAR_LEAP // self.DAYS_IN_WEEK)
         self.HOURS_IN_YEAR = self.DAYS_IN_YEAR * self.HOURS_IN_DAY
         self.MINUTES_IN_YEAR = self.DAYS_IN_YEAR * self.MINUTES_IN_DAY
         self.SECONDS_IN_YEAR = self.DAYS_IN_YEAR * self.SECONDS_IN_DAY
